@@ -58,8 +58,13 @@ func TracerouteSerial(ctx context.Context, t TracerouteDriver, p TracerouteSeria
 
 		if probe != nil {
 			log.Tracef("found probe %+v", probe)
+			// as in TracerouteParallel: keep the first reply for a TTL (a later duplicate would
+			// overestimate the RTT), but never let an ICMP response cover up a destination response
+			previous := results[probe.TTL]
+			if previous == nil || (!previous.IsDest && probe.IsDest) {
+				results[probe.TTL] = probe
+			}
 			// if we found the destination, no need to keep going
-			results[probe.TTL] = probe
 			if probe.IsDest {
 				break
 			}
